@@ -8,11 +8,22 @@ import pipe_common
 from common import Check, main_wrapper
 
 
+def refine_site(site, o):
+    """Known crashes are keyed by exception site plus, where the unchanged tree's failures share a sharper condition,
+    that condition — so that a different failure at the same site is still reported."""
+    opts = o.get("opts") or []
+    if site == "AssertionError@scheduler.use_fast_storage_for_feature_maps":
+        # unchanged tree: only with a tiny arena cache (<= 16 KiB) under --optimise Performance
+        cache = int(opts[opts.index("--arena-cache-size") + 1]) if "--arena-cache-size" in opts else 393216
+        return site + (":arena-cache<=16384" if cache <= 16384 else ":arena-cache>16384")
+    return site
+
+
 def main():
     ck = Check("C13", "other")
     ck.lean_stage(["VelaVerif.Props.C13"])
-    n = 8000 if ck.thorough else 640
-    profiles = ["weird", "mixed", "cpu", "pattern", "lut", "elementwise", "weights", "cascade", "weird", "pattern"]
+    n = 12000 if ck.thorough else 1200
+    profiles = ["weird", "mixed", "cpu", "pattern", "lut", "pattern", "weights", "cascade", "weird", "pattern", "elementwise", "pattern"]
     outs = pipe_common.run_corpus(ck, n, profiles=profiles, want={"more_opts": True}, corpus_first=False)
     reqs = []
     for o in outs:
@@ -40,7 +51,7 @@ def main():
         nontrivial.add((o["profile"], tuple(o.get("src_ops", [])), tuple(o.get("desc", {}).get("inputs", [[]])[0] if o.get("desc") else ())))
         if v != "1":
             bad += 1
-            site = o.get("exc_site") or ("exit:" + str(o.get("ret")))
+            site = refine_site(o.get("exc_site") or ("exit:" + str(o.get("ret"))), o)
             ck.violation(f"compiler ended with {o['status']} ({o.get('exc')}) at {site} for network {o['idx']} ({o['profile']}) "
                          f"ops={o.get('src_ops')} opts={o.get('opts')}",
                          {"profile": o["profile"], "seed": o["seed"], "index": o["idx"], "opts": o.get("opts"),
